@@ -689,7 +689,10 @@ func runC18(c *ctx) {
 	// random constructed boards with tall stacks
 	for k := 0; k < 7200*c.scale; k++ {
 		size := 3 + k%6
-		p, _, _ := constructedBoard(r, size, 1+r.Intn(30), 0.3+0.7*r.Float64())
+		// the board of the shared generator, rebuilt with reserves that fit the byte fields (a board with more than 255
+		// stones of one colour, or Pieces+Capstones > 255, is not a position of the representable domain)
+		_, bd, mv := constructedBoard(r, size, 1+r.Intn(30), 0.3+0.7*r.Float64())
+		p := evPos(r, evBoard(bd), mv, r.Intn(6) == 0, r.Intn(4) == 0)
 		emitC18(c, p, pickW(), "constructed")
 	}
 	// finished games
